@@ -37,7 +37,7 @@ REQUIRED_COUNTERS = [
     "c15.class.construct", "c15.construct.strided-buffer", "c15.class.alias", "c15.class.getitem1", "c15.class.getitem2",
     "c15.class.setitem1", "c15.class.setitem2", "c15.class.binop", "c15.class.inplace",
     "c15.class.unary", "c15.class.size", "c15.class.query", "c15.class.elementwise", "c15.class.overflow",
-    "c15.class.mutate-result", "c15.overflow.index2-beyond-int32", "c15.overflow.numbers-only-mul", "c15.overflow.numbers-only-emax",
+    "c15.class.mutate-result", "c15.self-index.both", "c15.overflow.index2-beyond-int32", "c15.overflow.numbers-only-mul", "c15.overflow.numbers-only-emax",
     "c15.index.int", "c15.index.negint", "c15.index.int-oor", "c15.index.slice", "c15.index.list",
     "c15.index.list-neg", "c15.index.list-oor", "c15.index.list-empty", "c15.index.imat", "c15.index.imat-neg",
     "c15.index.imat-oor",
@@ -567,7 +567,22 @@ def run(ctx):
                        "iadd": "%s += %s" % (a, big)}[f]
             do(src, "overflow:" + f)
 
-        GENS = [(g_construct, 14), (g_alias, 5), (lambda: g_getitem(False), 9), (lambda: g_getitem(True), 9),
+        def g_selfindex():
+            """an integer matrix used as its own row AND column index in an assignment that overwrites the very entries that
+            serve as indices (with values far outside the index range): the indices are those at the time of the call"""
+            t = target()
+            m, n = rng.randint(1, 3), rng.randint(1, 3)
+            vals = [rng.randrange(min(m, n)) for _ in range(m * n)]
+            if do("%s = matrix(%s, (%d,%d))" % (t, vals, m, n), "construct:for-self-index") != "ok":
+                return
+            big = rng.choice([10**7, -10**7, 2**40, 12345])
+            form = rng.choice(["both", "both", "row", "col", "single"])
+            ctx.count("c15.self-index." + form)
+            src = {"both": "%s[%s, %s] = %d" % (t, t, t, big), "row": "%s[%s, :] = %d" % (t, t, big),
+                   "col": "%s[:, %s] = %d" % (t, t, big), "single": "%s[%s] = %d" % (t, t, big)}[form]
+            do(src, "setitem2:self-index-" + form)
+
+        GENS = [(g_selfindex, 0.8), (g_construct, 14), (g_alias, 5), (lambda: g_getitem(False), 9), (lambda: g_getitem(True), 9),
                 (lambda: g_setitem(False), 9), (lambda: g_setitem(True), 9), (g_binop, 16), (g_inplace, 12),
                 (g_unary, 6), (g_size, 4), (g_query, 6), (g_elementwise, 7), (g_overflow, 1.2)]
         tot = sum(w for _, w in GENS)
